@@ -34,6 +34,7 @@ ASSUMPTIONS = ["the client cannot know whether a faulting write left: it counts 
 REQUIRED_OBS = ["handshake_request_not_resent", "faults_hit_inflight", "retried_first_on_next_connection",
                 "dropped_after_budget", "expiry_boundary_cases", "api_commands_classified",
                 "nonidempotent_not_resent"]
+SOAK = True   # also judged by the whole-run monitors of the soak sessions (vf/soak.py)
 BUDGET = {"quick": 100, "thorough": 1500}
 
 EPS = 1e-6
